@@ -1070,6 +1070,33 @@ fn derive_dot_expression(
             }
         }
 
+        // Call through a field: `t.f(args)`. The field is resolved like any
+        // other selector; a function field yields its return shape.
+        (_, Expression::Call(call_def)) => {
+            let field = Expression::Simple(call_def.funcref.clone());
+            match derive_dot_expression(pos, left_shape, &field, symbol_table) {
+                err @ Shape::TypeErr(_, _) => err,
+                Shape::Func(fdef) => fdef.ret.as_ref().clone(),
+                _ => Shape::Narrowed(NarrowedShape {
+                    pos: pos.clone(),
+                    types: NarrowingShape::Any,
+                }),
+            }
+        }
+
+        // Copy through a field: `t.u{...}`. The field is resolved like any
+        // other selector; what the copy produces is only known at runtime.
+        (_, Expression::Copy(copy_def)) => {
+            let field = Expression::Simple(copy_def.selector.clone());
+            match derive_dot_expression(pos, left_shape, &field, symbol_table) {
+                err @ Shape::TypeErr(_, _) => err,
+                _ => Shape::Narrowed(NarrowedShape {
+                    pos: pos.clone(),
+                    types: NarrowingShape::Any,
+                }),
+            }
+        }
+
         // Grouped expression - unwrap and recurse
         (_, Expression::Grouped(expr, _)) => {
             derive_dot_expression(pos, left_shape, expr.as_ref(), symbol_table)
